@@ -573,6 +573,11 @@ fn outcome_plans() -> Vec<(&'static str, Vec<Plan>, Vec<Fault>)> {
         ("spawn-failure-first", vec![Plan::new(Fate::Pass)], vec![Fault::Spawn { nth: 0, errno: 2 }]),
         ("wait-failure", vec![Plan::new(Fate::Pass), Plan::new(Fate::Pass)], vec![Fault::Wait { proc: 0, errno: 10 }]),
         ("poll-eintr", vec![Plan::new(Fate::Pass), Plan::new(Fate::Pass)], vec![Fault::PollEintr { proc: 1, nth: 1 }]),
+        (
+            "detached-then-timeout",
+            vec![Plan::new(Fate::Detached), Plan::new(Fate::Pass), Plan::new(Fate::Hang).cfg(to(SEC)), Plan::new(Fate::Pass)],
+            vec![],
+        ),
         ("bg-hold-timeout", vec![Plan::new(Fate::BgHold { ns: 30 * SEC }).cfg(to(2 * SEC)), Plan::new(Fate::Pass)], vec![]),
         (
             "closed-streams-timeout",
@@ -1141,6 +1146,46 @@ pub fn lane_script_limits(seed: u64) -> Vec<Scenario> {
             };
             fill_expectations(&mut sc, &mut g);
             out.push(sc);
+        }
+    }
+    out
+}
+
+/// C05: which stream is judged - the setting given in the front-matter defaults, inline, and
+/// on the command line, in every combination, for a command that writes to both streams
+pub fn lane_stream_layers(seed: u64) -> Vec<Scenario> {
+    let mut out = vec![];
+    let mut g = G::new(seed ^ 0x57e4);
+    let opts = [None, Some(Stream::Stdout), Some(Stream::Stderr), Some(Stream::Combined)];
+    for tier in [Tier::Lib, Tier::Cli] {
+        for dflt in opts {
+            for inline in opts {
+                for flag in [None, Some(true), Some(false)] {
+                    for matching in [true, false] {
+                        let mut sim = base_sim(g.rng.next_u64());
+                        let mut p = if matching { Plan::new(Fate::Pass) } else { Plan::new(Fate::WrongOutput) };
+                        p.cfg.output_stream = inline;
+                        let t = g.test(&p, &mut sim.programs);
+                        let t2 = g.test(&Plan::new(Fate::Pass), &mut sim.programs);
+                        let mut d = doc("layers.md", Format::Md, vec![t, t2]);
+                        d.defaults.output_stream = dflt;
+                        let mut cli = Cli::default();
+                        cli.combine_output = flag;
+                        let mut sc = Scenario {
+                            lane: format!("stream-layers/{:?}/d{:?}/i{:?}/f{:?}/{}", tier, dflt, inline, flag, matching),
+                            tier,
+                            script_mode: false,
+                            docs: vec![d],
+                            cli,
+                            sim,
+                            pretty: false,
+                            check: vec!["C05".into(), "C13".into(), "C20".into()],
+                        };
+                        fill_expectations(&mut sc, &mut g);
+                        out.push(sc);
+                    }
+                }
+            }
         }
     }
     out
